@@ -78,7 +78,7 @@ def gen(prop, stream, tier, avoid):
             kind = rng.weighted([("curve", 4), ("surface", 4), ("volume", 1.5)])
         spec = shapes.gen_shape(rng, kind=kind, max_size=6 if kind == "curve" else 5, max_degree=3,
                                 dim=3 if (pooled or kind != "curve") else None)
-        if objs and rng.chance(0.2):
+        if objs and rng.chance(0.3):
             # a sibling of an earlier object: same kind, degrees, sizes and knot vectors (other control points); the caller
             # builds both from the SAME knot vector lists, as users do for patches of one model
             j = rng.randrange(len(objs))
@@ -723,6 +723,8 @@ def run(script, ctx):
             ctx.nontrivial = True
         for d in _dims(cfg):
             ctx.probe("config_dim:" + d)
+        ctx.state("cfg:%s|cache=%s|%s" % ("+".join(_dims(cfg)) or "baseline-like", zy_cache,
+                                          ",".join(sorted({sp["kind"] + ("R" if sp["rational"] else "") for sp in script["objects"]}))))
         if zy_cache is not None:
             ctx.probe("config_dim:cache_size")
         mm = _first_mismatch(script, base, obs, cfg)
